@@ -17,6 +17,7 @@ Clauses(e) ==
       <<"variance-non-increasing", e.raised \/ e.nonincreasing>>,
       <<"nested", e.raised \/ Small(e.nest_dev, Tol)>>,
       <<"lengths", e.raised \/ e.lens>>,
+      <<"same-model-for-integer-dtype-input", Small(e.int_dev, Tol)>>,
       <<"criterion-gives-a-burg-model", e.raised \/ (e.crit_order_ok /\ Small(e.crit_dev, Tol))>> }
 
 VARIABLES l, fails
